@@ -625,6 +625,28 @@ impl<const M: usize> World<M> {
     }
 }
 
+pub fn act_what(a: &Act) -> &'static str {
+    match a {
+        Act::Nop => "nop",
+        Act::Layout { .. } => "alloc_layout",
+        Act::Typed { .. } => "alloc",
+        Act::TryWith { .. } => "alloc_try_with",
+        Act::Slice { .. } => "alloc_slice",
+        Act::Str { .. } => "alloc_str",
+        Act::Allocate { .. } => "allocate",
+        Act::Dealloc { .. } => "deallocate",
+        Act::Grow { .. } => "grow",
+        Act::Shrink { .. } => "shrink",
+        Act::Reset { .. } => "reset",
+        Act::SetLimit { .. } => "set_allocation_limit",
+        Act::ThreadHop => "thread_hop",
+        Act::CapProbe => "cap_probe",
+        Act::PanicCb { .. } => "panicking_callback",
+        Act::UniTryWith { .. } => "alloc_try_with_uniform",
+        Act::UniSliceFail { .. } => "alloc_slice_try_fill_with_uniform",
+    }
+}
+
 pub fn panic_kind(p: &PanicClass) -> &'static str {
     match p {
         PanicClass::Oom => "oom",
@@ -1047,6 +1069,30 @@ impl<const M: usize> World<M> {
             }
         }
         let post = self.generic_post(what, &pre, pl, false);
+        if let (Some((ka, kn)), true, true) = (kept, self.judge, matches!(o, Outcome::InitErr)) {
+            // blocks the initialiser allocated and kept stay valid: the next allocations must not land on them
+            let envp2 = self.env;
+            let b = self.bump.take().unwrap();
+            let r2 = arena_op(envp2, self.step, self.arena, &[], || {
+                let x = b.try_alloc_layout(Layout::from_size_align(16, 1).unwrap()).map(|p| p.as_ptr() as usize).ok();
+                let y = b.try_alloc_layout(Layout::from_size_align(kn.min(4096), 1).unwrap()).map(|p| p.as_ptr() as usize).ok();
+                (x, y)
+            });
+            self.bump = Some(b);
+            if let Ok((x, y)) = r2 {
+                for (addr, n) in [(x, 16usize), (y, kn.min(4096))] {
+                    if let Some(addr) = addr {
+                        if addr < ka + kn && ka < addr + n {
+                            self.v(11, "kept_block_overwritten_later", format!("kept_block_overwritten_later/{what}"), format!("{what}: the initialiser allocated and kept [rel {},+{kn}) and then failed; a following request of {n} bytes was placed at rel {}, on top of it", self.rel(ka), self.rel(addr)));
+                            self.terminal = true;
+                            break;
+                        }
+                        self.accept_block("allocation_after_failed_init", addr, n, 1, true, None);
+                    }
+                }
+            }
+            self.cov |= cov::PROBE;
+        }
         if let Some(e) = err_tok.take() {
             let forced_new = nreq_total > 0 && self.e().live_count(self.arena) > pl.0;
             if forced_new {
